@@ -15,6 +15,7 @@ func TestVerifReplay(t *testing.T) {
 		"VerifC12SubmitThorough":   VerifC12SubmitThorough,
 		"VerifC06Quick":            VerifC06Quick,
 		"VerifC13Quick":            VerifC13Quick,
+		"VerifC13Thorough":         VerifC13Thorough,
 		"VerifC07AcceptQuick":      VerifC07AcceptQuick,
 		"VerifC07AcceptThorough":   VerifC07AcceptThorough,
 		"VerifC07AcceptV1":         VerifC07AcceptV1,
